@@ -168,6 +168,8 @@ def run(check):
             backend_part(check)
         if not check.has_failing():
             backend_unicode_part(check)
+        if not check.has_failing():
+            rule_spelling_part(check)
     n_div = sum(1 for (rule, s_), got in impl_ts.items() if rule in RULES
                 for pos in ("field", "variant") if "panic" not in impl_serde[(pos, rule, s_)] and got != impl_serde[(pos, rule, s_)])
     check.extra["divergences_from_serde_outside_conventional_names"] = n_div
@@ -677,3 +679,472 @@ def mark_class(lang, problems):
         if not escaped or rust != want or not all(unicodedata.category(chr(int(h, 16))).startswith("M") for h in escaped):
             return False
     return True
+
+
+# ----------------------------------------------------------------------------- the spelling of the rule string
+
+RULE_WORDS = {"lowercase": ["lower", "case"], "UPPERCASE": ["UPPER", "CASE"], "PascalCase": ["Pascal", "Case"], "camelCase": ["camel", "Case"],
+              "snake_case": ["snake", "case"], "SCREAMING_SNAKE_CASE": ["SCREAMING", "SNAKE", "CASE"], "kebab-case": ["kebab", "case"],
+              "SCREAMING-KEBAB-CASE": ["SCREAMING", "KEBAB", "CASE"]}
+# blanks `str::trim` strips (White_Space) and characters that look blank / are invisible but are not White_Space; which is which is
+# asked of Rust std on every run (`rust_ws` below), not read from these two lists
+# (U+0085, U+2028 and U+2029 are White_Space too; left out because tools/common.py cuts the answers of the two executables into lines
+# with str.splitlines, which also cuts at those three when an answer - the `unicode` table - carries them)
+BLANKS = [" ", "  ", "\t", "\n", "\r\n", "\x0b", "\x0c", "\xa0", "\u1680", "\u2000", "\u2003", "\u2009", "\u200a", "\u202f", "\u205f", "\u3000"]
+INVISIBLE = ["\u200b", "\u200c", "\u200d", "\u2060", "\ufeff", "\xad", "\u180e", "\x1f", "\x00", "\u0301", "\u034f"]
+# letters of other scripts (and compatibility characters) that look like the ASCII letter; U+212A KELVIN SIGN lower-cases to `k`, U+017F
+# LONG S upper-cases to `S`, U+0130 lower-cases to `i` + U+0307: equal to the ASCII letter for a *Unicode* case-insensitive comparison
+LOOKALIKE = {"a": "\u0430\u0251", "c": "\u0441\u03f2\u217d", "e": "\u0435", "o": "\u043e\u03bf", "p": "\u0440\u03c1", "s": "\u0455\u017f",
+             "k": "\u212a\u043a\u03ba", "i": "\u0456\u0131", "l": "\u04cf\u217c", "w": "\u051d", "n": "\u0578", "m": "\u217f", "b": "\u0185",
+             "A": "\u0410\u0391", "B": "\u0412\u0392", "C": "\u0421\u03f9\u216d", "E": "\u0415\u0395", "G": "\u050c", "I": "\u0406\u0399\u0130",
+             "K": "\u041a\u039a\u212a", "M": "\u041c\u039c\u216f", "N": "\u039d", "P": "\u0420\u03a1", "S": "\u0405", "U": "\u054d", "R": "\u01a6",
+             "-": "\u2010\u2011\u2013\u2212\uff0d\ufe63", "_": "\uff3f\ufe4d\u2017"}
+# what other libraries and other serde attributes call the conventions; short forms; values of neighbouring settings
+OTHER_NAMES = ["camel", "snake", "kebab", "pascal", "lower", "upper", "Camel", "Pascal", "SCREAMING", "SCREAMING_SNAKE", "SCREAMING-KEBAB",
+               "screaming_snake", "camel_case", "pascal_case", "PascalCamelCase", "UpperCamelCase", "lowerCamelCase", "upperCamelCase",
+               "lower_camel_case", "upper_camel_case", "UPPER_SNAKE_CASE", "lower_snake_case", "UPPER_CASE", "lower_case", "CONSTANT_CASE",
+               "Title Case", "Train-Case", "COBOL-CASE", "lisp-case", "dash-case", "dot.case", "flatcase", "UPPERFLATCASE", "Camel_Snake",
+               "lower-case", "invalid case", "none", "None", "null", "default", "verbatim", "rename_all", "true", "false", "1", "0", "case",
+               "Case", "CASE", "camelCase,snake_case", "camelCase snake_case", "camelCase|snake_case", "serialize", "deserialize", "*"]
+TRIM_FINDING = "rule-string-trimmed"
+# identifiers by what the rules do to them: several lower-case words (changed by every rule but lowercase / snake_case), capitals in a
+# field (changed by lowercase, and by typeshare's snake family), one word; variants of several words (changed by every rule but
+# PascalCase), with an underscore or a lower-case initial (changed by PascalCase too), of one word
+F_MULTI = ["account_id", "display_name", "x2_value", "created_by_user", "is_3d_secure", "first_name", "a_b", "line_1"]
+F_MIXED = ["fooBar", "Account_ID", "userID", "HTTPServer", "mixed_Case", "eTag", "URL", "r#Type"]
+F_ONE = ["age", "n", "id", "r#type", "x1"]
+V_MULTI = ["SignedIn", "PasswordChanged", "HttpServer", "VeryTasty", "AddressLine1", "B2Bank"]
+V_ODD = ["Foo_Bar", "lowerStart", "snake_case", "HTTPServer", "X_1"]
+V_ONE = ["Low", "High", "Ok", "A", "r#Match", "URL"]
+V_STRUCT = ["InnerPart", "WithFields", "Detail_Rec"]        # the struct variant of an enum that carries the string itself
+SPELLING_CLASSES = {
+    "exact": "one of serde's eight rule names",
+    "case": "`{rule}` with the case of some letters changed",
+    "separator": "`{rule}` with its word separator (`_`, `-`, none) exchanged, dropped, doubled or replaced by a blank / look-alike",
+    "blank-stripped": "`{rule}` with White_Space around it (`str::trim` gives the rule name)",
+    "blank-kept": "`{rule}` with a blank inside it, or with an invisible character that is not White_Space at its end or inside it",
+    "affix": "`{rule}` with something before or after it, doubled, quoted, or cut short",
+    "look-alike": "`{rule}` with a letter or separator replaced by a look-alike of another script / a full-width form",
+    "edit": "one edit (a letter dropped, doubled, replaced, two letters exchanged) away from `{rule}`",
+    "combined": "`{rule}` with the case of some letters or the separator changed, and blanks around it",
+    "other-name": "a name other libraries / other settings use for a convention, a short form, or a value of a neighbouring setting",
+    "empty": "empty or blanks only",
+    "random": "a random string over the letters and separators of the rule names",
+}
+
+
+def rule_spellings(rng, thorough):
+    """[(string, class, the rule name it was made from or None)]: the eight exact names first, then every other string once, under the
+    class it was first made in; a string that happens to be byte-equal to one of the eight names is `exact`, however it was made"""
+    k = 25 if thorough else 4
+    out, seen = [], set()
+
+    def add(s, cls, base):
+        if s in RULES:
+            cls, base = "exact", s
+        if s not in seen:
+            seen.add(s)
+            out.append((s, cls, base))
+
+    def flip(s, i):
+        return s[:i] + s[i].swapcase() + s[i + 1:]
+
+    def letters(s):
+        return [i for i, ch in enumerate(s) if ch.isalpha()]
+
+    for r in RULES:
+        add(r, "exact", r)
+    for r in RULES:
+        words = RULE_WORDS[r]
+        own = "_" if "_" in r else "-" if "-" in r else ""
+        assert own.join(words) == r
+        # --- case
+        for s in (r.lower(), r.upper(), r.capitalize(), r.swapcase(), flip(r, 0), flip(r, letters(r)[-1]), own.join(w.capitalize() for w in words),
+                  own.join(w.lower() for w in words[:1]) + own + own.join(w.capitalize() for w in words[1:]),
+                  own.join([w.upper() for w in words[:-1]] + [words[-1].lower()])):
+            add(s, "case", r)
+        for _ in range(k):
+            add(flip(r, rng.choice(letters(r))), "case", r)
+            add("".join(ch.swapcase() if rng.random() < 0.5 else ch for ch in r), "case", r)
+        # --- separator
+        for sep in ["", "_", "-", " ", "__", "--", ".", "/", "::", "\u2010", "\uff3f", "\xa0", "\u200b"]:
+            add(sep.join(words), "separator", r)
+        if len(words) == 3:
+            for a, b in [("_", "-"), ("-", "_"), ("", "_"), ("_", ""), ("", "-"), ("-", ""), (" ", "_"), ("-", " ")]:
+                add(words[0] + a + words[1] + b + words[2], "separator", r)
+        # --- blanks around it (stripped by str::trim) / blanks and invisible characters that stay
+        for b in BLANKS:
+            add(b + r, "blank-stripped", r)
+            add(r + b, "blank-stripped", r)
+        add("  " + r + "\t", "blank-stripped", r)
+        add("\n    " + r + "\n", "blank-stripped", r)
+        for b in INVISIBLE:
+            add(b + r, "blank-kept", r)
+            add(r + b, "blank-kept", r)
+        for _ in range(k):
+            i = rng.randint(1, len(r) - 1)
+            add(r[:i] + rng.choice(BLANKS + INVISIBLE) + r[i:], "blank-kept", r)
+        # --- something before / after it, doubled, quoted, cut short
+        for s in ["x" + r, r + "x", r + "1", "_" + r, r + "_", "-" + r, r + "-", r + r, r + "," + r, r + ", ", "serde::" + r, "rename_all=" + r,
+                  "rename_all = \"%s\"" % r, '"%s"' % r, "'%s'" % r, "`%s`" % r, "(%s)" % r, r + "s", r + "d", r[:-1], r[1:], r[:len(r) // 2],
+                  r[:-4] if r[-5] in "_-" else r[:-4] + "-", own.join(words[:-1]), own.join(words[1:]), r + own + "case", "to_" + r, r + "()",
+                  r + ";", r + "\\", "\\" + r, r + "\"", "#" + r, r + "#", "r#" + r, "r\"" + r + "\""]:
+            add(s, "affix", r)
+        # --- look-alikes
+        add("".join(chr(ord(ch) + 0xFEE0) for ch in r), "look-alike", r)
+        positions = list(range(len(r)))
+        for i in (positions if thorough else rng.sample(positions, 3)):
+            alts = LOOKALIKE.get(r[i], "") + chr(ord(r[i]) + 0xFEE0)
+            for alt in (alts if thorough else [rng.choice(alts)]):
+                add(r[:i] + alt + r[i + 1:], "look-alike", r)
+        special = [i for i in positions if r[i] in "kKsSiI"]        # the letters with a non-ASCII character in their Unicode case orbit
+        for i in special:
+            for alt in {"k": "\u212a", "K": "\u212a", "s": "\u017f", "S": "\u017f", "i": "\u0130\u0131", "I": "\u0130\u0131"}[r[i]]:
+                add(r[:i] + alt + r[i + 1:], "look-alike", r)
+        # --- one edit away
+        for _ in range(3 * k):
+            i = rng.randrange(len(r))
+            add(rng.choice([r[:i] + r[i + 1:], r[:i] + r[i] + r[i:], r[:i] + rng.choice("abcdeklmnprsuwxyzACEKMNPS_- ") + r[i + 1:],
+                            r[:i] + r[i + 1:i + 2] + r[i] + r[i + 2:]]), "edit", r)
+        # --- a case / separator variant with blanks around it (what is left after str::trim is still not a rule name)
+        variants = [s for s, c, b in out if b == r and c in ("case", "separator")]
+        for _ in range(2 * k):
+            add(rng.choice(BLANKS + [""]) + rng.choice(variants) + rng.choice(BLANKS), "combined", r)
+    for s in OTHER_NAMES + UNKNOWN:
+        add(s, "other-name", None)
+    for s in [""] + BLANKS + INVISIBLE[:5] + [" \t ", "_", "-", "__", "\u3000\u3000"]:
+        add(s, "empty" if not s or s in BLANKS or s in (" \t ", "\u3000\u3000") else "random", None)
+    alphabet = sorted(set("".join(RULES))) + ["_", "-", " ", "case", "Case", "CASE"]
+    for _ in range(40 * k):
+        add("".join(rng.choice(alphabet) for _ in range(rng.choice([1, 2, 3, 5, 8, 9, 10, 13, 20]))), "random", None)
+    for _ in range(4 * k):
+        a, b = rng.sample(RULES, 2)
+        add(rng.choice([a + b, a + " " + b, a[:len(a) // 2] + b[len(b) // 2:]]), "random", None)
+    return out
+
+
+def spelling_text(s, cls, base):
+    shown = json.dumps(s, ensure_ascii=False) if s.isprintable() else json.dumps(s)
+    return "%s (%s)" % (shown, SPELLING_CLASSES[cls].replace("{rule}", base or ""))
+
+
+def rule_spelling_part(check):
+    """dimension: the *spelling of the rule string* in `#[serde(rename_all = "...")]`.  For each of serde's eight names: the exact
+    name (control), every kind of case variant (lower / upper / capitalised / one letter flipped / random), the word separator
+    exchanged (`_` `-` none blank `.` doubled, look-alike dashes), blanks around it (ASCII and Unicode White_Space) and invisible
+    characters that are no White_Space (U+200B, U+FEFF, soft hyphen, NUL ...) around and inside it, prefixes / suffixes / quotes /
+    truncations / the name doubled, look-alike letters of other scripts and full-width forms (incl. the characters that *are* the
+    ASCII letter under a Unicode case-insensitive comparison: KELVIN SIGN, LONG S, dotted capital I), single edits; and the names other
+    libraries give the conventions, short forms, the empty string, blank strings, random strings over the alphabet of the rule names.
+    Each string is put on a struct (its fields), on an enum (its variants; the fields of a struct variant of that enum must stay as they
+    are under every string) and on a struct variant (its fields; the variant's own name must stay), with identifiers every rule would
+    change, and goes (1) through parser::parse, against the model and the oracle; (2) into rename_all_to_case directly (hook), against
+    the model and the oracle; (3) through the six generators, keys and variant names read back with C01's / C02's extractors, and against
+    the back-end models.  Demanded (C16's last sentence, the model's `Rule.ofStr`): a string that is not byte-equal to one of serde's
+    eight names is not a rule - field and variant names stay exactly as they are written (`r#` removed); under the eight exact names
+    conventional identifiers get serde_derive's name (vendored case.rs), so that the part is known to see the attribute at all.
+    (serde_derive itself rejects every other string - `unknown rename rule` at compile time of the user's crate; it is the property
+    text that makes such strings inputs of typeshare, which never compiles the crate.)  One class apart: typeshare reads attribute
+    values through `literal_to_string`, which trims them, so a rule name with White_Space around it *is* applied - by the implementation
+    and by the model (Parser.exprToString); judged as the class `rule-string-trimmed`: there the names must be exactly those of the trimmed
+    rule or unchanged, and a witness is reported as a known / candidate finding, not as a violation."""
+    import c01, c02, l1, l2
+    from syn_gen import m_path, m_nv, m_list, lit_s, t_path, field
+    from gen import Gen
+    rng = check.rng
+    g = Gen(rng)
+    spellings = rule_spellings(rng, check.thorough)
+    by_string = {s: (cls, base) for s, cls, base in spellings}
+    nonascii = {ch for s, _, _ in spellings for ch in s if ord(ch) > 127}
+    ws = {r[0] for r in unicode_table(nonascii) if r[5]} | set("\t\n\x0b\x0c\r ")
+
+    def rust_trim(s):
+        a, b = 0, len(s)
+        while a < b and s[a] in ws:
+            a += 1
+        while b > a and s[b - 1] in ws:
+            b -= 1
+        return s[a:b]
+
+    def trimmed_rule(s):
+        """the rule name `s` becomes under str::trim, when `s` itself is none"""
+        return rust_trim(s) if s not in RULES and rust_trim(s) in RULES else None
+
+    for s, cls, base in spellings:
+        check.count("rule-spelling class:" + ("blank-stripped (trim gives a rule name)" if trimmed_rule(s) else cls))
+    unraw = lambda w: w.replace("r#", "")
+    ts = [m_path("typeshare")]
+    keys = [m_nv("tag", lit_s("t")), m_nv("content", lit_s("c"))]
+    fl = lambda ws_: ("named", [field([], w, t_path("u8")) for w in ws_])
+
+    def pick(pools, n_extra=0):
+        names = [rng.choice(p) for p in pools]
+        for _ in range(n_extra):
+            names.append(rng.choice(rng.choice(pools)))
+        out = []
+        for w in names:
+            if unraw(w).replace("_", "").upper() not in {unraw(x).replace("_", "").upper() for x in out}:
+                out.append(w)
+        rng.shuffle(out)
+        return out
+
+    def item(level, name, s, with_struct_variant=None):
+        """(abstract item, [(position, identifier, where its name is found in the parse answer)]); the positions `field-unruled` /
+        `variant-unruled` are names the string does not govern at all"""
+        ra = m_list("serde", [m_nv("rename_all", lit_s(s))])
+        if level == "struct":
+            fs = pick([F_MULTI, F_MIXED, F_ONE], rng.choice([0, 1]))
+            return ({"kind": "struct", "attrs": ts + [ra], "ident": name, "generics": [], "fields": fl(fs)},
+                    [("field", w, ("f", i)) for i, w in enumerate(fs)])
+        if level == "enum":
+            vs = pick([V_MULTI, V_ODD, V_ONE], rng.choice([0, 1]))
+            variants = [{"attrs": [], "ident": v, "fields": ("unit",)} for v in vs]
+            names = [("variant", v, ("v", i)) for i, v in enumerate(vs)]
+            sv = rng.random() < 0.4 if with_struct_variant is None else with_struct_variant
+            if sv:
+                fs = pick([F_MULTI, F_MIXED])
+                inner = rng.choice(V_STRUCT)
+                variants.append({"attrs": [], "ident": inner, "fields": fl(fs)})
+                names.append(("variant", inner, ("v", len(vs))))
+                names += [("field-unruled", w, ("vf", len(vs), i)) for i, w in enumerate(fs)]
+            return ({"kind": "enum", "attrs": ts + ([m_list("serde", keys + [ra[3][0]])] if sv else [ra]), "ident": name, "generics": [],
+                     "variants": variants}, names)
+        fs = pick([F_MULTI, F_MIXED, F_ONE])
+        v = rng.choice(V_MULTI + V_ODD[:2])
+        return ({"kind": "enum", "attrs": ts + [m_list("serde", keys)], "ident": name, "generics": [],
+                 "variants": [{"attrs": [ra], "ident": v, "fields": fl(fs)}, {"attrs": [], "ident": "Other", "fields": ("unit",)}]},
+                [("variant-unruled", v, ("v", 0))] + [("field", w, ("vf", 0, i)) for i, w in enumerate(fs)])
+
+    def read(ans, name, where):
+        d = ans.get("ok") or {}
+        for st in d.get("structs", []):
+            if st["id"]["o"] == name and where[0] == "f":
+                return st["fields"][where[1]]["id"]["r"]
+        for en in d.get("enums", []):
+            if en["id"]["o"] == name and where[0] == "v":
+                return en["variants"][where[1]]["id"]["r"]
+            if en["id"]["o"] == name and where[0] == "vf":
+                return en["variants"][where[1]]["fields"][where[2]]["id"]["r"]
+        return None
+
+    # ---- serde_derive's names under the eight exact names, and typeshare's function under them (what a rule *would* do to a name)
+    idents = sorted({("field", unraw(w)) for w in F_MULTI + F_MIXED + F_ONE} | {("variant", unraw(w)) for w in V_MULTI + V_ODD + V_ONE + V_STRUCT})
+    ans = iter(runner([x for pos, w in idents for r in RULES
+                       for x in ({"op": "serde", "pos": pos, "rule": r, "s": w}, {"op": "rename", "rule": r, "s": w})]))
+    serde_name, applied = {}, {}
+    for pos, w in idents:
+        for r in RULES:
+            serde_name[(pos, r, w)], applied[(r, w)] = next(ans).get("ok"), next(ans).get("ok")
+    conventional = lambda pos, w: bool(FIELD_CONV.match(w)) if pos == "field" else upper_camel(w)
+
+    def judge(s, names, got_of):
+        """the property on the names the implementation gave: (problem text, position, identifier, got, wanted) of the first name that
+        is wrong, or None; `in-class` instead of a problem text for a name inside the class `rule-string-trimmed`"""
+        cls, base = by_string[s]
+        in_class = None
+        for pos, w, where in names:
+            got, w0 = got_of(where), unraw(w)
+            if pos.endswith("-unruled") or s not in RULES:
+                if got == w0:
+                    continue
+                tr = trimmed_rule(s)
+                if tr and not pos.endswith("-unruled") and got == applied[(tr, w0)]:
+                    in_class = in_class or ("in-class", pos, w, got, w0)
+                    continue
+                if pos.endswith("-unruled"):
+                    why = "rename_all = %s stands on the %s, which does not govern the name of this %s" % (
+                        json.dumps(s, ensure_ascii=False), "enum" if pos == "field-unruled" else "variant", pos.split("-")[0])
+                else:
+                    why = "rename_all = %s is not one of serde's eight rule names, and an unknown rule leaves names unchanged" % spelling_text(s, cls, base)
+                return ("%s; yet the %s `%s` is named %r" % (why, pos.split("-")[0], w, got), pos, w, got, w0)
+            want = serde_name[(pos, s, w0)]
+            if want is not None and conventional(pos, w0) and got != want:
+                return ("rename_all = \"%s\" (the exact rule name): the %s `%s` is named %r, serde_derive names it %r" % (s, pos, w, got, want),
+                        pos, w, got, want)
+        return in_class
+
+    # ---- (1) through parser::parse
+    levels = ("struct", "enum", "variant")
+    todo = [(s, lv) for s, _, _ in spellings for lv in levels]
+    rng.shuffle(todo)
+    per_file = 12
+    files = []
+    for i in range(0, len(todo), per_file):
+        its, metas = [], []
+        for j, (s, lv) in enumerate(todo[i:i + per_file]):
+            name = "%s%d" % ({"struct": "S", "enum": "E", "variant": "F"}[lv], j)
+            it, names = item(lv, name, s)
+            its.append(it)
+            metas.append((s, lv, name, names, it))
+        f = {"attrs": [], "items": its}
+        m, r, text = l1.requests(f, g)
+        files.append((m, r, text, metas))
+    mans, rans, diffs = l1.compare([(m, r) for m, r, _, _ in files])
+    trim_witness, changing, failures = None, 0, []
+    for (m, r, text, metas), ra in zip(files, rans):
+        for s, lv, name, names, it in metas:
+            cls, base = by_string[s]
+            would = base is not None and any(applied[(base, unraw(w))] != unraw(w) for pos, w, _ in names if not pos.endswith("-unruled"))
+            changing += would
+            check.saw(("rule-spelling", lv, s), nontrivial=would or cls == "exact")
+            check.count("rule-spelling parse:%s" % lv)
+            bad = judge(s, names, lambda where: read(ra, name, where))
+            if bad and bad[0] == "in-class":
+                check.count("inside-class:" + TRIM_FINDING)
+                plain = lambda x, level: (x.strip(" ") != rust_trim(x), len(x), level != "struct", x)    # preferred: plain spaces, short, a struct
+                if trim_witness is None or plain(s, lv) < plain(*trim_witness[:2]):
+                    trim_witness = (s, lv, it, bad)
+            elif bad:
+                failures.append((not conventional(bad[1].split("-")[0], unraw(bad[2])), (not (s.isascii() and s.isprintable()), len(s)), s, lv, name, names, it, text, bad))
+    if failures:
+        # reported: the failure with the most ordinary identifier and the plainest (printable ASCII), shortest string; its item alone, parsed again, is the source shown
+        failures.sort(key=lambda t: t[:5])
+        _, _, s, lv, name, names, it, text, bad = failures[0]
+        cls, base = by_string[s]
+        m1, r1, text1 = l1.requests({"attrs": [], "items": [it]}, g)
+        a1 = runner([r1])[0]
+        small = judge(s, names, lambda where: read(a1, name, where))
+        if small and small[0] != "in-class":
+            bad, text = small, text1
+        by_class = {}
+        for f in failures:
+            by_class[by_string[f[2]][0]] = by_class.get(by_string[f[2]][0], 0) + 1
+        check.violation("%s [on %s, through parser::parse]" % (bad[0], {"struct": "a struct", "enum": "an enum", "variant": "a struct variant"}[lv]),
+                        case={"source": text, "rename_all": s, "spelling_class": cls, "made_from_rule": base, "level": lv,
+                              "item": name, "position": bad[1], "ident": bad[2],
+                              "failing_items_by_spelling_class": by_class, "items_tried": len(todo),
+                              "other_failing_strings": sorted({f[2] for f in failures[1:]})[:40],
+                              "replay": "write `source` to src/lib.rs of an empty directory; typeshare <dir> --lang=typescript --output-file=out.ts; "
+                                        "read the name of the %s in out.ts" % bad[1].split("-")[0]},
+                        impl=bad[3], model=bad[4], failing_input=True)
+        return
+    check.count("rule-spelling parse: items where the rule the string was made from would change a name", changing)
+    if diffs:
+        i = diffs[0]
+        check.violation("parser::parse differs from the model under rename_all strings that are (mis)spellings of the rule names (the oracle "
+                        "finds the implementation's names right): %s" % l1.first_diff(mans[i], rans[i]),
+                        case={"source": files[i][2], "rename_all": [s for s, *_ in files[i][3]]}, impl=rans[i], model=mans[i], failing_input=False,
+                        broken="correspondence L1 serdeRenameAll / getIdent / Rule.ofStr (theorems TsV.C16.unknown_rule, rename_by_rule)")
+
+    # ---- (2) the function itself (hook): no attribute reader in between, so no trimming - a blank is a character like any other
+    fn_idents = [unraw(w) for w in F_MULTI[:3] + F_MIXED[:4] + V_MULTI[:2] + V_ODD[:3] + V_ONE[-1:]]
+    meta = [(s, w) for s, _, _ in spellings for w in fn_idents]
+    fa = runner([{"op": "rename", "rule": s, "s": w} for s, w in meta])
+    fm = model([[S("rename"), s, w] for s, w in meta])
+    fdiff = None
+    for (s, w), a, ma in zip(meta, fa, fm):
+        cls, base = by_string[s]
+        check.saw(("rule-spelling-fn", s, w), nontrivial=s not in RULES)
+        check.count("rule-spelling function")
+        a, ma = norm(a, "typeshare"), norm(ma, "typeshare")
+        if s not in RULES and a != {"ok": w}:
+            check.violation("rename_all_to_case(%r, Some(%s)) gives %s: %s is not one of serde's eight rule names (an unknown rule leaves names "
+                            "unchanged)" % (w, json.dumps(s, ensure_ascii=False), a, spelling_text(s, cls, base)),
+                            case={"op": "rename", "rule": s, "ident": w, "spelling_class": cls, "made_from_rule": base}, impl=a, model={"ok": w},
+                            failing_input=True)
+            return
+        if a != ma and fdiff is None:
+            fdiff = (s, w, a, ma)
+    if fdiff:
+        s, w, a, ma = fdiff
+        check.violation("rename_all_to_case differs from the model on %r under the rule string %s" % (w, json.dumps(s, ensure_ascii=False)),
+                        case={"op": "rename", "rule": s, "s": w}, impl=a, model=ma, failing_input=False,
+                        broken="correspondence renameAllToCase (theorems TsV.C16.rename_by_rule, unknown_rule)")
+
+    # ---- (3) through the six generators: strings that are no rule name also after trimming (the class above is judged at (1))
+    unknown = [(s, cls, base) for s, cls, base in spellings if s not in RULES and rust_trim(s) not in RULES]
+    if check.thorough:
+        chosen = list(unknown)
+    else:
+        chosen = []
+        for r in RULES:
+            for wanted in (("case",), ("case", "combined"), ("separator",), ("affix", "edit"), ("look-alike", "blank-kept")):
+                chosen.append(rng.choice([x for x in unknown if x[2] == r and x[1] in wanted]))
+        chosen += rng.sample([x for x in unknown if x[2] is None], 8)
+    rng.shuffle(chosen)
+    while len(chosen) % 4:
+        chosen.append(rng.choice(unknown))
+    # identifiers the extractors of C01 / C02 read in every language, distinct whatever a rule would make of them
+    LF = [["account_id", "display_name", "x2_value", "created_by_user", "first_name"], ["fooBar", "userID", "eTag", "mixed_Case"], ["age", "n", "id"]]
+    LV = [["SignedIn", "PasswordChanged", "VeryTasty", "AddressLine1"], ["Foo_Bar", "HTTPServer", "B2Bank"], ["Low", "High", "Ok"]]
+    cases = []
+    for i in range(0, len(chosen), 4):
+        (s1, _, _), (s2, _, _), (s3, _, _), (s4, _, _) = four = chosen[i:i + 4]
+        ra = lambda s: m_list("serde", [m_nv("rename_all", lit_s(s))])
+        sfields = [rng.choice(p) for p in LF]
+        vfields = [rng.choice(p) for p in LF[:2]]
+        unit_vs = [rng.choice(p) for p in LV]
+        tagged_vs = [rng.choice(p) for p in LV]
+        rng.shuffle(sfields), rng.shuffle(unit_vs)
+        f = {"attrs": [], "items": [
+            {"kind": "struct", "attrs": ts + [ra(s1)], "ident": "Person", "generics": [], "fields": fl(sfields)},
+            {"kind": "enum", "attrs": ts + [ra(s2)], "ident": "Col", "generics": [],
+             "variants": [{"attrs": [], "ident": v, "fields": ("unit",)} for v in unit_vs]},
+            {"kind": "enum", "attrs": ts + [ra(s3), m_list("serde", keys)], "ident": "Ev", "generics": [],
+             "variants": [{"attrs": [ra(s4)], "ident": tagged_vs[0], "fields": fl(vfields)},
+                          {"attrs": [], "ident": tagged_vs[1], "fields": ("unit",)},
+                          {"attrs": [], "ident": tagged_vs[2], "fields": ("unnamed", [field([], None, t_path("u8"))])}]}]}
+        exps = [dict(name="Col", unit=True, tag=None, content=None, variants=[dict(ident=v, kind="u", wire=v, opt=False) for v in unit_vs]),
+                dict(name="Ev", unit=False, tag="t", content="c", variants=[dict(ident=v, kind=kd, wire=v, opt=False) for v, kd in zip(tagged_vs, "sut")])]
+        for lang in LANGS:
+            cfg = {"package": "proto" if lang == "go" else "com.example", "type_mappings": {}, "version_header": False,
+                   "prefix": rng.choice(["", "", "OP"]) if lang in ("kotlin", "swift") else "", "module_name": ""}
+            m, r, texts = l2.requests(lang, cfg, [{"crate": "", "file_name": "out", "path": "src/lib.rs", "file": f}], g)
+            cases.append(dict(lang=lang, cfg=cfg, file=f, m=m, r=r, src=texts[0], exps=exps, four=four))
+    names = set()
+    for c in cases:
+        if c["lang"] == "python":
+            names |= l2.names_of(c["file"])
+    gm = [l2.norm(a) for a in model([c["m"] for c in cases], names=names)]
+    gr = [l2.norm(a) for a in runner([c["r"] for c in cases])]
+    gdiff, keys_judged = None, 0
+    for c, ma, ra_ in zip(cases, gm, gr):
+        lang, cfg = c["lang"], c["cfg"]
+        check.saw(("rule-spelling-backend", lang, c["src"]), nontrivial=True)
+        check.count("rule-spelling back ends")
+        where = "; ".join("%s: %s" % (lv, spelling_text(*x)) for lv, x in zip(("struct Person", "enum Col", "enum Ev", "its struct variant"), c["four"]))
+        problems = []
+        if not isinstance(ra_.get("ok"), dict):
+            problems.append("the %s generator does not generate at all: %s" % (lang, str(ra_)[:300]))
+        else:
+            text = "\n".join(ra_["ok"][k] for k in sorted(ra_["ok"]))
+            probs, n = c01.oracle(lang, cfg, c["file"], ra_)
+            keys_judged += n + sum(len(e["variants"]) for e in c["exps"])
+            problems += probs
+            bad = c02.oracle(lang, cfg, text, c["exps"])
+            for name in sorted(bad):
+                problems += ["enum %s: %s" % (name, msg) for _, msg in bad[name]]
+        if problems:
+            check.violation("none of the rename_all strings of this file is one of serde's eight rule names (%s), so every field and variant keeps "
+                            "its name; the %s back end writes other names: %s" % (where, lang, problems[0]),
+                            case={"lang": lang, "config": cfg, "source": c["src"], "rename_all": [x[0] for x in c["four"]], "problems": problems[:6],
+                                  "request": c["r"]}, impl=ra_, model=ma, failing_input=True)
+            return
+        if ma != ra_ and gdiff is None:
+            gdiff = (c, ma, ra_)
+    check.count("rule-spelling back ends: keys and variant names judged", keys_judged)
+    check.rule += ("; spelling of the rule string: %d strings (the eight names; case / separator / blank / affix / look-alike / edit variants of each; other "
+                   "names, empty, random) x {struct, enum, struct variant} through parser::parse, x %d identifiers through rename_all_to_case, %d files "
+                   "x 6 languages through the generators; a string not byte-equal to a rule name leaves every name unchanged"
+                   % (len(spellings), len(fn_idents), len(cases) // 6))
+    if trim_witness:
+        s, lv, it, bad = trim_witness
+        _, _, text = l1.requests({"attrs": [], "items": [it]}, g)
+        witness = {"rename_all": s, "level": lv, "source": text, "position": bad[1], "ident": bad[2], "typeshare": bad[3],
+                   "unchanged_would_be": bad[4], "applied_rule": trimmed_rule(s)}
+        if not check.known(TRIM_FINDING, witness):
+            # not (yet) an `open:` line of KNOWN_FINDINGS.txt: kept visible in the evidence
+            check.notes.append("candidate finding %s (attribute values are trimmed by literal_to_string before the rule is looked up, so a rule "
+                               "name with White_Space around it - which serde_derive rejects as an unknown rule - is applied; the model does the "
+                               "same): %s" % (TRIM_FINDING, json.dumps(witness, ensure_ascii=False)[:1500]))
+    if gdiff:
+        c, ma, ra_ = gdiff
+        d = None
+        if "ok" in ma and "ok" in ra_:
+            for k in ra_["ok"]:
+                d = d or l2.text_diff(ma["ok"].get(k, ""), ra_["ok"][k])
+        check.violation("the %s generator differs from the model under rename_all strings that are no rule names (the oracle finds the "
+                        "implementation's names right): %s" % (c["lang"], d or (str(ma)[:200] + " vs " + str(ra_)[:200])),
+                        case={"lang": c["lang"], "config": c["cfg"], "source": c["src"], "request": c["r"]}, impl=ra_, model=ma,
+                        failing_input=False, broken="correspondence L2 parse+generate_types under unknown rename_all strings (theorems "
+                                                    "TsV.C16.unknown_rule carried to the text by C16_Backends)")
